@@ -20,7 +20,14 @@ fn cell_of(r: Result<Variable, ExecStop>) -> Arc<variable::Mut> {
     }
 }
 
+fn declare() {
+    use crate::instruction::verif_gate::*;
+    allow_binops(0);
+    allow_unops(0);
+    allow_mask((1 << K_VARIABLE) | (1 << K_MUT));
+}
 fn check_fresh(ins: &Instruction, interp: &mut Interpreter, x: i64) {
+    declare();
     let c1 = cell_of(ins.exec(interp));
     let c2 = cell_of(ins.exec(interp));
     assert!(!Arc::ptr_eq(&c1, &c2));
@@ -67,6 +74,7 @@ pub fn mut_fresh_captured_init() {
         instruction: InstructionWithStr { instruction: local("v", Type::Int), str: "v".into() },
     }
     .into();
+    declare();
     let interp = Interpreter::without_stdlib();
     let mut lv = LocalVariables::new(&interp);
     lv.insert("v".into(), LocalVariable::Variable(Variable::Int(x)));
